@@ -283,7 +283,9 @@ def run_case(case):
             from fv.gen import raster
             tmpdir = tempfile.mkdtemp(prefix="fv-c09-")
             atexit.register(_sh.rmtree, tmpdir, True)
-            img, info = raster.voronoi_image(rng, ncells=int(rng.integers(4, 30)), clean=not case["raw"])
+            ring = case["seed"][2] % 3 == 2     # debris: a free closed ring that shares nothing with the tissue
+            img, info = raster.voronoi_image(rng, ncells=int(rng.integers(4, 30)), clean=not case["raw"], ring=ring)
+            hist["raster-with-free-ring"] = hist.get("raster-with-free-ring", 0) + int(ring)
             path = os.path.join(tmpdir, "t.tif")
             raster.save(img, path)
             sk = skeleton.Skeleton(path, mirror_y=bool(rng.integers(2)))
